@@ -245,6 +245,14 @@ where
     app.push(Ev::PubRead { seq, data, end });
 }
 
+/// log the result of `read_all()`
+pub fn read_whole(app: &App, seq: u32, r: Result<Bytes, ntex_mqtt::error::PayloadError>) {
+    match r {
+        Ok(b) => app.push(Ev::PubRead { seq, data: b.to_vec(), end: ReadEnd::Eof }),
+        Err(e) => app.push(Ev::PubRead { seq, data: Vec::new(), end: ReadEnd::Err(format!("{e:?}")) }),
+    }
+}
+
 fn seen_of(p: &codec::Publish, route: u8) -> Seen {
     let pr = conv::publish5_from_lib(p);
     Seen {
@@ -269,11 +277,15 @@ async fn publish_handler(app: Rc<App>, p: v5::Publish, route: u8) -> Result<v5::
     match plan.read {
         ReadPlan::Eager => read_payload(&app, seq, || p.read(), None).await,
         ReadPlan::ReadK(k) => read_payload(&app, seq, || p.read(), Some(k)).await,
+        ReadPlan::EagerAll => read_whole(&app, seq, p.read_all().await),
         _ => {}
     }
     app.wait(G_PUB, seq).await;
     if plan.read == ReadPlan::Lazy {
         read_payload(&app, seq, || p.read(), None).await;
+    }
+    if plan.read == ReadPlan::LazyAll {
+        read_whole(&app, seq, p.read_all().await);
     }
     guard.done = true;
     app.push(Ev::PubExit { seq, outcome: plan.outcome });
@@ -623,11 +635,15 @@ async fn client_protocol_handler(app: Rc<App>, msg: client::ProtocolMessage) -> 
             match plan.read {
                 ReadPlan::Eager => read_payload(&app, seq, || p.read(), None).await,
                 ReadPlan::ReadK(k) => read_payload(&app, seq, || p.read(), Some(k)).await,
+                ReadPlan::EagerAll => read_whole(&app, seq, p.read_all().await),
                 _ => {}
             }
             app.wait(G_PUB, seq).await;
             if plan.read == ReadPlan::Lazy {
                 read_payload(&app, seq, || p.read(), None).await;
+            }
+            if plan.read == ReadPlan::LazyAll {
+                read_whole(&app, seq, p.read_all().await);
             }
             guard.done = true;
             app.push(Ev::PubExit { seq, outcome: plan.outcome });
